@@ -12,6 +12,7 @@ import CBV.Lemmas.C18Clear
 import CBV.Lemmas.C18Sides
 import CBV.Lemmas.C18Disk
 import CBV.Lemmas.C18Reject
+import CBV.Lemmas.C18Stable
 import CBV.Gen.TC18
 import CBV.Gen.TC19
 
@@ -783,6 +784,50 @@ example : clearSearch (swapLR cubePts) (cubeHull.reverse.map (fun s => (perm [1,
     perm [1, 0, 3, 2, 5, 4, 7, 6] s.2.1, perm [1, 0, 3, 2, 5, 4, 7, 6] s.2.2))) ⟨1 / 2, -10, 1 / 2⟩ ⟨1 / 2, 1 / 2, 10⟩
     = some cubePts := by decide +kernel
 
+
+/-! ### round 6e: the float-to-exact link of the finder theorems -/
+
+section stable
+open CBV.C11 (P3)
+
+/-- **Rounding hypothesis and stability.**  `K` is the ordered field of the exact positions (ℝ ⊇ ℚ(√2) for the disk
+    sketches).  `vs`, `ps` are the exact vertex and sketch positions, `vs'`, `ps'` the rational (float) ones the
+    implementation computes and the finder model receives.  Hypotheses: every float position is within `δ` of the exact
+    one; `2δ < TOL`; no exact vertex lies in the ambiguity shell of an exact sketch position, i.e. each pair is either
+    within `TOL − 2δ` (e.g. coincident: the vertices of the end face ARE sketch positions) or at least `TOL + 2δ` apart
+    (e.g. a vertex on a non-rim position vs. a rim position, when rim and non-rim positions are that far apart).
+    Then `_find_from_points` on the float data returns exactly the vertex set the exact finder returns on the exact data
+    with the tolerance `TOL` — so `T_C18_disk_find` / `T_C18_disk_finder_points`, stated on exact positions, describe what
+    the implementation's finder returns. -/
+theorem T_C18_finder_stable {K : Type} [Field K] [LinearOrder K] [IsStrictOrderedRing K]
+    (δ : K) (hδ : 0 ≤ δ) (ht : 2 * δ < ((tol : Rat) : K)) (vs ps : List (P3 K)) (vs' ps' : List V3)
+    (hlv : vs'.length = vs.length) (hlp : ps'.length = ps.length)
+    (hv : ∀ i, i < vs.length →
+      P3.nsq (P3.sub (castP (vs'.getD i V3.zero)) (vs.getD i (castP V3.zero))) ≤ δ * δ)
+    (hp : ∀ k, k < ps.length →
+      P3.nsq (P3.sub (castP (ps'.getD k V3.zero)) (ps.getD k (castP V3.zero))) ≤ δ * δ)
+    (gap : ∀ i, i < vs.length → ∀ k, k < ps.length →
+      nearK (((tol : Rat) : K) - 2 * δ) (vs.getD i (castP V3.zero)) (ps.getD k (castP V3.zero)) ∨
+      ¬ nearK (((tol : Rat) : K) + 2 * δ) (vs.getD i (castP V3.zero)) (ps.getD k (castP V3.zero))) :
+    findFromPoints vs' ps' = findK ((tol : Rat) : K) (castP V3.zero) vs ps := by
+  rw [findFromPoints_cast (K := K),
+    findK_stable ((tol : Rat) : K) δ hδ ht (castP V3.zero) vs (vs'.map castP) ps (ps'.map castP)
+      (by simpa using hlv) (by simpa using hlp)
+      (fun i hi => by rw [getD_map_castP]; exact hv i hi)
+      (fun k hk => by rw [getD_map_castP]; exact hp k hk) gap,
+    findK_gap _ δ hδ ht _ vs ps gap]
+
+/-- non-vacuity (K = ℚ, δ = 1e-9): a vertex whose float image is off by 1e-9 from the sketch position it sits on, and a
+    vertex one unit away -/
+example : findFromPoints [⟨1 / 1000000000, 0, 0⟩, ⟨1, 0, 0⟩] [⟨0, 0, 0⟩]
+    = findK ((tol : Rat) : Rat) (castP V3.zero) [⟨0, 0, 0⟩, ⟨1, 0, 0⟩] [⟨0, 0, 0⟩] :=
+  T_C18_finder_stable (K := Rat) (1 / 1000000000) (by decide +kernel) (by decide +kernel)
+    [⟨0, 0, 0⟩, ⟨1, 0, 0⟩] [⟨0, 0, 0⟩] [⟨1 / 1000000000, 0, 0⟩, ⟨1, 0, 0⟩] [⟨0, 0, 0⟩] rfl rfl
+    (by decide +kernel) (by decide +kernel) (by decide +kernel)
+
+example : findFromPoints [⟨1 / 1000000000, 0, 0⟩, ⟨1, 0, 0⟩] [⟨0, 0, 0⟩] = [0] := by decide +kernel
+
+end stable
 
 /-! ### round 6d: the round-shape finder on the disk classes themselves, in every placement -/
 
